@@ -164,7 +164,7 @@ def run(ctx):
             if vnone is not False:
                 note('sub-none', n, s, 'substitute invoked although it may be None (not configured)', 'C02.c')
         else:
-            reraised = str(src).startswith('iface:Recording') or 'RecordingKeyError' in str(src)
+            reraised = hroles.get(s.extra.get('reraised_by')) == 'missing'
             if not reraised:
                 note('miss-exc', n, s, 'missing input without policy must re-raise the missing-key error (source %s)' % src, 'C02.c')
             if vnone is not True:
